@@ -1,6 +1,7 @@
 import OSProofs.Props.C08
 import OSProofs.Props.C08b
 import OSProofs.Props.C08c
+import OSProofs.Props.C08Mag
 #print axioms OS.C08_sqrt_arg_nonneg
 #print axioms OS.C08_ciq_pos
 #print axioms OS.C08_plC_pos
@@ -29,3 +30,15 @@ import OSProofs.Props.C08c
 #print axioms OS.C08_applyTeam_shape
 #print axioms OS.C08_pairDenom_shape
 #print axioms OS.C08_full_models_discarded_sites
+#print axioms OS.C08_mag_domain_implies_guard_domain
+#print axioms OS.C08_mag_inflated
+#print axioms OS.C08_magnitudes_aggregates
+#print axioms OS.C08_leafBounds_code
+#print axioms OS.C08_magnitudes_rate_BT
+#print axioms OS.C08_magnitudes_rate_PL
+#print axioms OS.C08_magnitudes_rate_TM
+#print axioms OS.C08_magnitudes_rate
+#print axioms OS.C08_magnitudes_rate_entry
+#print axioms OS.C08_magnitudes_predict
+#print axioms OS.C08_no_overflow_corollary
+#print axioms OS.C08_no_overflow_rate
